@@ -68,15 +68,15 @@ type scene struct {
 }
 
 func newScene(rng *rand.Rand) *scene {
-	edges := []mesh.Edge{{A: 1, B: 2, LA: 21, LB: 12}, {A: 1, B: 3, LA: 31, LB: 13}}
-	ms, err := mesh.New(3, edges, mesh.Opts{Extra: 2, WithTun: func(i int) bool { return i == 1 },
+	edges := []mesh.Edge{{A: 1, B: 2, LA: 21, LB: 12}, {A: 1, B: 3, LA: 31, LB: 13}, {A: 1, B: 4, LA: 41, LB: 14}}
+	ms, err := mesh.New(4, edges, mesh.Opts{Extra: 2, WithTun: func(i int) bool { return i == 1 },
 		Cfg: func(i int) config.Store {
 			return config.Store{ServiceConfigs: []config.ServiceConfig{{Name: "web", URL: "tcp://:80", Public: true}}}
 		}})
 	if err != nil {
 		panic(err)
 	}
-	s := &scene{ms: ms, v: ms.Node(1), p: ms.Node(2), q: ms.Node(3), x: ms.Node(4), u: ms.Node(5), rng: rng}
+	s := &scene{ms: ms, v: ms.Node(1), p: ms.Node(2), q: ms.Node(3), x: ms.Node(5), u: ms.Node(6), rng: rng}
 	pubV := s.v.ID.PublicAddress
 	for _, n := range []*world.Node{s.x, s.u} {
 		_ = n.St.AddRouter(&pubV)
@@ -93,11 +93,7 @@ func newScene(rng *rand.Rand) *scene {
 		_ = sn.Encryption().InitKeyClientComplete(rk, rkt)
 		sv.SetTunMTU(1400)
 	}
-	// a route to X through Q
-	hops := []m.SwitchHop{{Router: s.v.ID.IP, ForwardLabel: s.v.LinkTo(s.q).SwitchLabel()}, {Router: s.q.ID.IP, ForwardLabel: 77, ReturnLabel: 66}, {Router: s.x.ID.IP, ReturnLabel: 88}}
-	if _, err := s.v.RoutingTable().AddRoute(m.RoutingTableEntry{DstIP: s.x.ID.IP, NextHop: s.q.ID.IP, Source: m.RouteSourceGossip, Expires: time.Now().Add(time.Hour), Path: m.SwitchPath{Hops: hops}}); err != nil {
-		panic(err)
-	}
+	s.routeToX()
 	// a genuine announcement of P
 	time.Sleep(2 * time.Millisecond)
 	s.ms.W.Inflight = nil
@@ -112,6 +108,14 @@ func newScene(rng *rand.Rand) *scene {
 		panic("no announcement captured")
 	}
 	return s
+}
+
+// routeToX (re-)installs V's route to X through Q.
+func (s *scene) routeToX() {
+	hops := []m.SwitchHop{{Router: s.v.ID.IP, ForwardLabel: s.v.LinkTo(s.q).SwitchLabel()}, {Router: s.q.ID.IP, ForwardLabel: 77, ReturnLabel: 66}, {Router: s.x.ID.IP, ReturnLabel: 88}}
+	if _, err := s.v.RoutingTable().AddRoute(m.RoutingTableEntry{DstIP: s.x.ID.IP, NextHop: s.q.ID.IP, Source: m.RouteSourceGossip, Expires: time.Now().Add(time.Hour), Path: m.SwitchPath{Hops: hops}}); err != nil {
+		panic(err)
+	}
 }
 
 // seal builds a frame from P (claiming src) with the given message and seals it with P's real keys.
@@ -428,6 +432,42 @@ func (s *scene) gen(kind string, n int) (out [][]byte, notes []string) {
 				b[1] = []byte{0, 1, 2, 255}[i%4] // TTL
 			}
 			add(b, err, fmt.Sprintf("%s ttl %d", kind, []int{0, 1, 2, 255}[i%4]))
+		case "clone-sizes":
+			// a disconnect ping of the remote router X (relayed by Q) removes V's route to X and is forwarded -
+			// cloned - to V's other peers; its length sweeps the buffer-tier boundaries
+			tier := []int{600, 1600, 5100, 9600}[i%4]
+			want := tier - 30 + (i/4)%36 // tier-30 .. tier+5, on the wire incl. the 12+16 link margins the reader leaves
+			body := func(pad int) []byte {
+				b, _ := cbor.Marshal(map[string]any{"off": true, "pad": make([]byte, pad)})
+				return b
+			}
+			h := router.PingHeader{PingID: rng.Uint64() | 1, PingType: "disconnect", AddrHash: s.x.ID.Hash, KeyType: s.x.ID.Type, PublicKey: s.x.ID.PublicKey}
+			pad := want - 115 - len(pingMsg(h, body(0)))
+			if pad < 0 {
+				pad = 0
+			}
+			var raw []byte
+			for try := 0; try < 6; try++ {
+				f, err := s.x.Builder.NewFrameV1(s.x.ID.IP, V, frame.RouterPing, nil, pingMsg(h, body(pad)), nil)
+				if err != nil {
+					break
+				}
+				if err = f.Seal(s.x.St.GetSession(V)); err != nil {
+					f.ReturnToPool()
+					break
+				}
+				d, _ := f.FrameDataWithMargins(0, 0)
+				raw = append([]byte(nil), d...)
+				f.ReturnToPool()
+				if len(raw) == want {
+					break
+				}
+				pad += want - len(raw)
+				if pad < 0 {
+					pad = 0
+				}
+			}
+			add(raw, nil, fmt.Sprintf("forwarded disconnect ping of %d bytes", len(raw)))
 		case "appendix-stray":
 			mt := []frame.MessageType{frame.RouterPing, frame.NetworkTraffic, frame.RouterCtrl, frame.RouterHopPing}[i%4]
 			msg := goodPong()
@@ -830,7 +870,12 @@ func run(c *vf.Ctx) {
 				c.Broken("class sealed/%s: no instance could be built", kind)
 			}
 			for i, fr := range frames {
-				out, detail, dbl := s.deliver(s.p, fr)
+				from := s.p
+				if kind == "clone-sizes" {
+					from = s.q
+					s.routeToX()
+				}
+				out, detail, dbl := s.deliver(from, fr)
 				o := obs{Stage: "sealed", Kind: kind, Outcome: out, DoubleRelease: dbl, Alive: true, Detail: firstLine(detail), Input: notes[i]}
 				if out != "handled" && out != "dropped" || i == len(frames)-1 {
 					o.Alive = s.alive()
